@@ -14,13 +14,14 @@ class C07(Prop):
     id = "C07"
     driver = "Env"
     quick_n = 200
-    thorough_n = 6000
+    thorough_n = 15000
     rule = ("bar-shaped episodes over spot, margined and multiplier contracts with spreads, proportional and fixed "
             "fees, an interest-rate path (reference-rate quotes as events) with markup, latency, delays, all four reward "
             "functions, run to the end of the data. The track record is replayed by an independent Fraction ledger "
             "(recorded trades, commissions recomputed from the fee schedule, recorded interest, exchange quote history). "
             "Non-trivial = >= 2 record entries and (a spread or fees or a non-zero rate or latency > 0 or a margined "
             "contract); distinct = distinct cases")
+    rule = rule + es.CONTEXT_RULE
     nontrivial_tags = {"spread", "fees", "rate", "latency", "margined", "delay"}
     assumptions = [
         "the quote in force at an execution is the last history row stamped <= the recorded execution time",
